@@ -57,21 +57,21 @@ def sameAbsB (names : List String) (a b : State R) : Bool :=
   names.all (fun n => decide (a.usage n = b.usage n) && decide (a.cap n = b.cap n))
 
 /-- C12 stream shape: a single failure with nothing created, or one message per planned instance -/
-def streamShapeB (planned : Nat) (msgs : List Msg) (created : Nat) : Bool :=
+def streamShapeB (planned : Nat) (msgs : List (Msg R)) (created : Nat) : Bool :=
   (msgs.length == 1 && msgs.all (fun m => !m.ok) && created == 0) || msgs.length == planned
 
-/-- C12 truthfulness: every success names a recorded workload on the reported node whose
-container exists and runs; distinct successes name distinct workloads -/
-def truthfulB (msgs : List Msg) (s : State R) : Bool :=
+/-- C12 truthfulness: every success names a recorded workload on the reported node with the
+reported resources whose container exists and runs; distinct successes name distinct workloads -/
+def truthfulB (msgs : List (Msg R)) (s : State R) : Bool :=
   let succ := msgs.filter (·.ok)
-  succ.all (fun m => s.wls.any (fun w => w.id == m.id && w.node == m.node) &&
+  succ.all (fun m => s.wls.any (fun w => w.id == m.id && w.node == m.node && decide (some w.res = m.res)) &&
                      s.cts.any (fun c => c.id == m.id && c.node == m.node && c.running)) &&
   (succ.map (·.id)).eraseDups.length == succ.length
 
 /-- C12 cleanliness: the workloads / containers present after the call are exactly the ones
 present before plus the reported successes (so a failed instance left no record and no
 container), and usage grew by exactly the successes' resources -/
-def cleanB (msgs : List Msg) (pre post : State R) : Bool :=
+def cleanB (msgs : List (Msg R)) (pre post : State R) : Bool :=
   let succ := (msgs.filter (·.ok)).map (·.id)
   post.wls.all (fun w => pre.wls.contains w || succ.contains w.id) &&
   pre.wls.all (fun w => post.wls.contains w) &&
